@@ -409,39 +409,42 @@ def closure_unifies_bindings(M, clo, lb, rb):
     cf = [f for f in M.funcs if "{closure#" in f.name and f.args and key in f.args[0][1]]
     if len(cf) != 1:
         return False
-    ex = mirlib.executor([M])
-    outs = [p for p in ex.run(cf[0]) if p.kind == "return"]
-    if len(outs) != 1 or ex.unknown:
-        return False
-    p = outs[0]
-    env = ("sym", cf[0].debug.get(cf[0].args[0][0], "arg1"))
-    zips = [e for e in p.calls() if e[1].endswith("::zip")]
-    tfe = [e for e in p.calls() if e[1].endswith("::try_for_each")]
-    if len(zips) != 1 or len(tfe) != 1 or tfe[0][3] != p.ret:
-        return False
-    z = zips[0]
-    want_l = ms.proj(env, ("f", il), mirlib.enums())
-    want_r = ms.proj(env, ("f", ir), mirlib.enums())
-    if not (mentions([z[2][0]], want_l) and mentions([z[2][1]], want_r)):
-        return False
-    if not mentions([tfe[0][2][0]], z[3]):
-        return False
-    inner = tfe[0][2][1]
-    if inner[0] != "aggr" or not str(inner[1]).startswith("{closure@"):
-        return False
-    key2 = inner[1][len("{closure@"):].rstrip("}")
-    cf2 = [f for f in M.funcs if "{closure#" in f.name and f.args and key2 in f.args[0][1]]
-    if len(cf2) != 1 or len(cf2[0].args) != 2:
-        return False
-    ex2 = mirlib.executor([M])
-    outs2 = [q for q in ex2.run(cf2[0]) if q.kind == "return"]
-    if len(outs2) != 1 or ex2.unknown:
-        return False
-    q = outs2[0]
-    us = q.calls("unify")
-    pair = ("sym", cf2[0].debug.get(cf2[0].args[1][0], "arg2"))
+    # the zipped pairs are walked as a loop - written as `for` or as try_for_each(closure), which the executor runs
+    # as a loop too: an exhausted walk answers Ok, one arbitrary pair is handed to unify(sets, l, r), whose failure
+    # is the closure's failure and whose success goes on to the next pair
     E = mirlib.enums()
-    return len(us) == 1 and us[0][3] == q.ret and us[0][2][1] == ms.proj(pair, ("f", 0), E) and us[0][2][2] == ms.proj(pair, ("f", 1), E)
+    ex = mirlib.executor([M])
+    outs = ex.run(cf[0])
+    if ex.unknown:
+        return False
+    env = ("sym", cf[0].debug.get(cf[0].args[0][0], "arg1"))
+    want_l = ms.proj(env, ("f", il), E)
+    want_r = ms.proj(env, ("f", ir), E)
+    seen_ok = seen_step = seen_err = False
+    for p in outs:
+        if p.kind not in ("return", "backedge"):
+            continue
+        zips = [e for e in p.calls() if e[1].endswith("::zip")]
+        if len(zips) != 1 or not (mentions([zips[0][2][0]], want_l) and mentions([zips[0][2][1]], want_r)):
+            return False
+        nx = [e for e in p.calls() if e[1].endswith("Iterator::next")]
+        if not nx or not mentions([nx[-1][2][0]], zips[0][3]):
+            return False
+        us = p.calls("unify")
+        if not us:
+            if p.kind == "return" and p.ret[0] == "variant" and p.ret[2] == "Ok":
+                seen_ok = True
+            continue
+        pair = ms.proj(ms.proj(nx[-1][3], ("v", "Some"), E), ("f", 0), E)
+        if len(us) != 1 or us[0][2][1] != ms.proj(pair, ("f", 0), E) or us[0][2][2] != ms.proj(pair, ("f", 1), E):
+            return False
+        if p.kind == "backedge":
+            seen_step = True
+        elif p.ret == us[0][3] or mentions([p.ret], ms.proj(ms.proj(us[0][3], ("v", "Err"), E), ("f", 0), E)):
+            seen_err = True
+        else:
+            return False
+    return seen_ok and seen_step and seen_err
 
 
 def union_steps(o, L, M, bad):
